@@ -88,7 +88,7 @@ def run(ctx, report):
         if directed >= 0:
             # one row group of several pages whose only missing value sits in the FIRST page (v1, then v2)
             n = 40
-            kinds = [k for k in ("float64", "dt_ms", "str", "Int64", "boolean") if k in KINDS]
+            kinds = [k for k in ("float64", "dt_ms", "str", "Int64", "boolean", "cat_str", "cat_int") if k in KINDS]
             pats = {k: "first" for k in kinds}
         df = pd.DataFrame({"rid": np.arange(n, dtype="int64")})
         for j, k in enumerate(kinds):
